@@ -114,7 +114,9 @@ pub fn bfs<Y: Sys>(sys: &Y, keep_edges: bool, max_states: usize) -> Graph<Y> {
             let st = sys.step(&s, a);
             g.edges += 1;
             if let Some(b) = st.bad {
-                g.bads.push((head, ai, b));
+                if g.bads.len() < 5000 {
+                    g.bads.push((head, ai, b));
+                }
             }
             let idx = match index.get(&st.next) {
                 Some(i) => *i,
